@@ -455,6 +455,40 @@ pub fn gen(prop: &str, rng: &mut Rng, thorough: bool, out: &mut Sink) {
                 }
             }
         }
+        // WordPiece with a word length limit: encodable words of multi-byte characters whose character count is
+        // within the limit while their byte count is above it (the limit counts characters)
+        if let Model::WordPiece { vocab, max_word_chars } = &tk.def.model {
+            if *max_word_chars > 0 && prop != "C01" {
+                let pre = tk.def.config.templates.iter().find(|t| t.position == InsertionPosition::WordContinuation).map(|t| t.content.clone()).unwrap_or_default();
+                let multi = |b: &[u8]| std::str::from_utf8(b).map(|t| !t.is_empty() && t.len() > t.chars().count()).unwrap_or(false);
+                let starts: Vec<String> = vocab.iter().filter(|t| (pre.is_empty() || !t.bytes.starts_with(pre.as_bytes())) && multi(&t.bytes)).map(|t| String::from_utf8_lossy(&t.bytes).to_string()).collect();
+                let conts: Vec<String> = vocab.iter().filter(|t| !pre.is_empty() && t.bytes.starts_with(pre.as_bytes()) && multi(&t.bytes[pre.len()..])).map(|t| String::from_utf8_lossy(&t.bytes[pre.len()..]).to_string()).collect();
+                for _ in 0..6 {
+                    if starts.is_empty() {
+                        break;
+                    }
+                    let mut w = rng.pick(&starts).clone();
+                    for _ in 0..12 {
+                        if conts.is_empty() {
+                            break;
+                        }
+                        let c = rng.pick(&conts);
+                        if w.chars().count() + c.chars().count() > *max_word_chars as usize {
+                            break;
+                        }
+                        w.push_str(c);
+                    }
+                    if w.chars().count() <= *max_word_chars as usize && w.len() > *max_word_chars as usize {
+                        for s in [false, true] {
+                            if let Some(l) = enc_line(op, &tk, &w, s) {
+                                lines.push(l);
+                            }
+                        }
+                        out.count("wordpiece_words_within_char_limit_above_byte_limit");
+                    }
+                }
+            }
+        }
         for _ in 0..ntexts {
             let mut text = text_for_wide(rng, &tk.def, true, prop == "C18");
             if rng.chance(1, 8) {
